@@ -490,7 +490,8 @@ class Repo:
                 return loc
             o = scope.owner(e.id)
             if o is not None and not o.is_module:
-                return None
+                if not all(k == "import" for k, _ in o.binds.get(e.id, [])):
+                    return None
             m = scope.module
             if e.id in m.imports:
                 mod, sym = m.imports[e.id]
